@@ -251,7 +251,7 @@ C07_FATAL = {"dkg1:ok", "dkg2:ok", "dkg3:ok", "dkg3:kp", "dkg3:pkp", "dkg2:r2", 
 
 # ------------------------------------------------------------------------ C08
 C08_INV = ["InvNoSilentAccept", "InvCulprits", "InvCaught", "Emit"]
-ALLFAULTS = ('{"none","r1field","r1len","r1swap","r1own","r1unknown","r1missing","r1surplus","r1late",'
+ALLFAULTS = ('{"none","r1field","r1len","r1swap","r1graft","r1own","r1unknown","r1missing","r1surplus","r1late",'
              '"r2delta","r2route","r2own","r2unknown","r2missing","r2surplus"}')
 
 
@@ -413,11 +413,11 @@ def c16_slices(tier):
     th = tier == "thorough"
     sl = []
     sl.append(dict(name="A_all_entry_points", module="C16", invariants=["InvBatchOk", "Emit"], consts=consts(
-        7, Probes='{"dealer","dkg1","single","repair","refresh","rr","batch"}', Vals=ZQ(7),
+        7, Probes='{"dealer","dkg1","rdkg1","single","repair","refresh","rr","batch"}', Vals=ZQ(7),
         NZVals="{2,5}", MaxZeros="2", Shapes="{<<2,2>>, <<3,2>>, <<3,3>>, <<4,4>>, <<1,1>>, <<2,3>>}",
         DomHDKG="{4}", DomHR="{3}", DomH2="{2}", DomH3="{3}", EMIT="TRUE")))
     sl.append(dict(name="B_t5", module="C16", invariants=["InvBatchOk", "Emit"], consts=consts(
-        11, Probes='{"dealer","dkg1"}', Vals="{0,1,10}" if not th else "{0,1,4,10}", NZVals="{7}", MaxZeros="1",
+        11, Probes='{"dealer","dkg1","rdkg1"}', Vals="{0,1,10}" if not th else "{0,1,4,10}", NZVals="{7}", MaxZeros="1",
         Shapes="{<<5,5>>, <<6,4>>}", DomHDKG="{4}", EMIT="TRUE")))
     return sl
 
@@ -504,7 +504,7 @@ def c05_codec(ctx):
 
 
 # ------------------------------------------------------------------------ C13
-ALLB = '{"dkg1","dkg2","dkg3","commit","rdkg1","rdkg2","rdkg3","dealer_share","dealer_kp","commit2"}'
+ALLB = '{"dkg1","dkg2","dkg3","commit","rdkg1","rdkg2","rdkg3","dealer_share","dealer_kp","repair_delta","repair_sigma","repair_kp","commit2"}'
 
 
 def c13_slices(tier):
